@@ -694,7 +694,7 @@ def run_check(prop, tier, verif_seed, workers=None, out=sys.stdout):
             "cross_interpreter": cross_info,
             "known_finding_hits": dict(sorted(total.known_hits.items())),
             "real_components": machine_cls.REAL,
-            "stub_components": machine_cls.STUB,
+            "stub_components": list(machine_cls.STUB) + ["builtins.id for callers inside the menpo package (identity seam: lowest number not held by a living object; never called by the unchanged tree)"],
             "workers": workers,
         },
         "assumptions": machine_cls.ASSUMPTIONS,
